@@ -9,6 +9,7 @@ structure Hint where
   H : TL
   refine : Bool
   idx : List Nat
+  xs : List Var
 
 def getHints (j : Json) : Except String (List Hint) := do
   match j.getObjVal? "hints" with
@@ -16,7 +17,7 @@ def getHints (j : Json) : Except String (List Hint) := do
   | .ok h =>
     (← h.getArr?).toList.mapM fun e => do
       pure ⟨← getTerm (← e.getObjVal? "t"), ← getTL (← e.getObjVal? "H"), ← getBool (← e.getObjVal? "refine"),
-            ← getNats (← e.getObjVal? "idx")⟩
+            ← getNats (← e.getObjVal? "idx"), ← getVars (← e.getObjVal? "xs")⟩
 
 def closeQ (a b : Rat) : Bool :=
   let d := Poly.rabs (a - b)
@@ -34,9 +35,9 @@ def matchHint (h : Hint) (t : PTerm) (H : TL) (refine : Bool) : Bool :=
   h.refine == refine && closeTerm h.t t && closeTL h.H H
 
 /-- hint lookup by exact content; a hint is used only if the driver verifies it is admissible -/
-def hintFn (hs : List Hint) (xs : List Var) (t : PTerm) (H : TL) (refine : Bool) : Option (List Nat) :=
+def hintFn (hs : List Hint) (_xs : List Var) (t : PTerm) (H : TL) (refine : Bool) : Option (List Nat) :=
   match hs.find? (fun h => matchHint h t H refine) with
-  | some h => if Elim.hintAdmissible theOracle t H xs refine h.idx then some h.idx else none
+  | some h => if Elim.hintAdmissible theOracle t H h.xs refine h.idx then some h.idx else none
   | none => none
 
 def jTacticRes (r : Elim.TacticRes) : Json :=
